@@ -3,9 +3,8 @@ import CollectionsC.Proofs.DequeCross
 state through both halves as the C statements do (`zipRemoveSelf`, `zipAddSelf`, `zipReplaceSelf`;
 `zipNext it d d` needs nothing new).  Remove and replace refine the self-zip cursor of
 `Spec/DequeSpec.lean`; every call keeps the invariant and the ledger.  `zipAddSelf` is partial on finding D3
-(both `add_at` calls) **and exhibits a finding of its own**: when the second `add_at` has to grow and is
-refused, the call still reports `CC_OK` with only one element inserted
-(`corpus/deque/defect_zip_alias_add_swallows_refusal.ops`). -/
+(both `add_at` calls); since repair D13 it is all-or-nothing also when the *second* `add_at` has to grow and
+is refused (`corpus/deque/regress_D13_zip_alias_add_refused.ops`). -/
 namespace CC.Deque
 open CC CC.Spec
 
@@ -96,14 +95,30 @@ theorem zipRemoveSelf_spec (it : Iter) (d : Deque) (m : Mem) (hi : d.Inv) :
         exact ⟨tr, r2, by rw [s2, List.getElem?_eq_none hle], by rw [s3, List.eraseIdx_of_length_le hle], tr, s4,
           by rw [s5, r5]⟩
 
-/-- aliased `zip_iter_add`, every cursor position (D3's range included): invariant, ledger and triple are
-kept whatever happens -/
-theorem zipAddSelf_safe (it : Iter) (d : Deque) (x y : Nat) (m : Mem) (hi : d.Inv) :
+theorem growIfFull_of_room (e : Deque) (n : Mem) (h : e.size < e.cap) : growIfFull e n = (.ok, e, n) := by
+  unfold growIfFull; rw [if_neg (by omega)]
+
+/-- **aliased `zip_iter_add` after repair D13 — both or none (partial on finding D3: both `add_at` calls must
+be outside the front-half range).**  Either the call returns `CC_OK`, the sequence reads `…, y, x, …` at the
+cursor position and the cursor has stepped on; or it fails (the pre-test growth or the growth needed by the
+*second* insertion was refused, or the position is out of range), and then the **content and the cursor are
+exactly as before** — the first element has been taken out again; only the capacity may have grown.
+Invariant and ledger are intact either way. -/
+theorem zipAddSelf_refines_partial (it : Iter) (d : Deque) (x y : Nat) (m : Mem) (hi : d.Inv)
+    (hD3a : ¬ (1 ≤ it.index ∧ it.index + 1 ≤ d.size / 2))
+    (hD3b : ¬ (1 ≤ it.index ∧ it.index + 1 ≤ (d.size + 1) / 2)) :
     (zipAddSelf it d x y m).2.2.1.Inv ∧ memSame d.triple (zipAddSelf it d x y m).2.2.2 m ∧
-    ((zipAddSelf it d x y m).1 ≠ .ok → (zipAddSelf it d x y m).2.2.1.abs = d.abs ∧ (zipAddSelf it d x y m).2.1 = it) := by
+    (((zipAddSelf it d x y m).1 = .ok ∧ it.index < d.size ∧
+        (zipAddSelf it d x y m).2.2.1.abs = (d.abs.insertIdx it.index x).insertIdx it.index y ∧
+        (zipAddSelf it d x y m).2.1 = { it with index := it.index + 1 }) ∨
+     ((zipAddSelf it d x y m).1 ≠ .ok ∧ (zipAddSelf it d x y m).2.2.1.abs = d.abs ∧
+        (zipAddSelf it d x y m).2.1 = it ∧
+        ((zipAddSelf it d x y m).1 = .errOutOfRange ↔ d.size ≤ it.index))) := by
   unfold zipAddSelf
   by_cases hr : it.index ≥ d.size ∨ it.index ≥ d.size
-  · rw [if_pos hr]; exact ⟨hi, memSame_refl _ m, fun _ => ⟨rfl, rfl⟩⟩
+  · rw [if_pos hr]
+    exact ⟨hi, memSame_refl _ m, Or.inr ⟨by simp, rfl, rfl, ⟨fun _ => (by omega), fun _ => rfl⟩⟩⟩
+  have hidx : it.index < d.size := by omega
   rw [if_neg hr]
   dsimp only
   have fold : ∀ (e : Deque) n, (if e.cap = e.size then e.expandCapacity n else (Stat.ok, e, n)) = growIfFull e n :=
@@ -113,38 +128,99 @@ theorem zipAddSelf_safe (it : Iter) (d : Deque) (x y : Nat) (m : Mem) (hi : d.In
   · have hne1 : ((growIfFull d m).1 != Stat.ok) = false := by simp [a1]
     simp only [hne1, Bool.false_eq_true, if_false]
     have t1 := growIfFull_triple d m
-    rcases growIfFull_spec (growIfFull d m).2.1 (growIfFull d m).2.2 a2 with ⟨b1, b2, b3, b4, b5, b6⟩ | ⟨b1, b2, b3, b4⟩
-    · have hne2 : ((growIfFull (growIfFull d m).2.1 (growIfFull d m).2.2).1 != Stat.ok) = false := by simp [b1]
-      simp only [hne2, Bool.false_eq_true, if_false]
-      have t2 := growIfFull_triple (growIfFull d m).2.1 (growIfFull d m).2.2
-      obtain ⟨p1, p2, _, _⟩ := addAt_inv (growIfFull (growIfFull d m).2.1 (growIfFull d m).2.2).2.1 x it.index
-        (growIfFull (growIfFull d m).2.1 (growIfFull d m).2.2).2.2 b2
-      have t3 := addAt_triple (growIfFull (growIfFull d m).2.1 (growIfFull d m).2.2).2.1 x it.index
-        (growIfFull (growIfFull d m).2.1 (growIfFull d m).2.2).2.2
-      obtain ⟨q1, q2, _, _⟩ := addAt_inv _ y it.index
-        ((growIfFull (growIfFull d m).2.1 (growIfFull d m).2.2).2.1.addAt x it.index
-          (growIfFull (growIfFull d m).2.1 (growIfFull d m).2.2).2.2).2.2 p1
-      rw [t3, t2, t1] at q2
-      rw [t2, t1] at p2
-      rw [t1] at b6
-      exact ⟨q1, memSame_trans q2 (memSame_trans p2 (memSame_trans b6 a6)), fun h => absurd rfl h⟩
-    · have hne2 : ((growIfFull (growIfFull d m).2.1 (growIfFull d m).2.2).1 != Stat.ok) = true := by simp [b1]
-      simp only [hne2, if_true]
-      rw [t1] at b3
-      exact ⟨by rw [b2]; exact a2, memSame_trans b3 a6, fun _ => ⟨by rw [b2]; exact a3, tr⟩⟩
+    rw [growIfFull_of_room (growIfFull d m).2.1 (growIfFull d m).2.2 a5]
+    simp only [bne_self_eq_false, Bool.false_eq_true, if_false]
+    -- first insertion: there is room, it succeeds and refines insertIdx
+    rcases addAt_refines_partial (growIfFull d m).2.1 x it.index (growIfFull d m).2.2 a2 (by rw [a4]; exact hD3a) with
+      ⟨p1, p2, p3, p4, _⟩ | ⟨_, _, _, _, p5, _⟩
+    · unfold DequeSpec.addAt at p1 p2
+      rw [a3, if_pos (by simpa using hidx)] at p1 p2
+      simp only at p1 p2
+      have hb1 : (((growIfFull d m).2.1.addAt x it.index (growIfFull d m).2.2).1 != Stat.ok) = false := by simp [p1]
+      simp only [hb1, Bool.false_eq_true, if_false]
+      have t2 := addAt_triple (growIfFull d m).2.1 x it.index (growIfFull d m).2.2
+      have hsz1 : ((growIfFull d m).2.1.addAt x it.index (growIfFull d m).2.2).2.1.size = d.size + 1 := by
+        have := congrArg List.length p2
+        simpa [List.length_insertIdx, Nat.le_of_lt hidx] using this
+      rw [t1] at p4
+      have hlen1 : (d.abs.insertIdx it.index x).length = d.size + 1 := by
+        rw [List.length_insertIdx, if_pos (by simp; omega)]; simp
+      -- second insertion: may have to grow
+      rcases addAt_refines_partial _ y it.index ((growIfFull d m).2.1.addAt x it.index (growIfFull d m).2.2).2.2 p3
+        (by rw [hsz1]; exact hD3b) with ⟨q1, q2, q3, q4, _⟩ | ⟨q1, q2, q3, _⟩
+      · unfold DequeSpec.addAt at q1 q2
+        rw [p2, if_pos (by rw [hlen1]; omega)] at q1 q2
+        simp only at q1 q2
+        have hb2 : ((((growIfFull d m).2.1.addAt x it.index (growIfFull d m).2.2).2.1.addAt y it.index
+          ((growIfFull d m).2.1.addAt x it.index (growIfFull d m).2.2).2.2).1 != Stat.ok) = false := by simp [q1]
+        simp only [hb2, Bool.false_eq_true, if_false]
+        rw [t2, t1] at q4
+        exact ⟨q3, memSame_trans q4 (memSame_trans p4 a6), Or.inl ⟨tr, hidx, q2, tr⟩⟩
+      · have hb2 : ((((growIfFull d m).2.1.addAt x it.index (growIfFull d m).2.2).2.1.addAt y it.index
+          ((growIfFull d m).2.1.addAt x it.index (growIfFull d m).2.2).2.2).1 != Stat.ok) = true := by simp [q1]
+        simp only [hb2, if_true]
+        rw [q2]
+        rw [t2, t1] at q3
+        obtain ⟨r1, _, r3, r4, r5, _⟩ := removeAt_spec ((growIfFull d m).2.1.addAt x it.index (growIfFull d m).2.2).2.1
+          it.index (((growIfFull d m).2.1.addAt x it.index (growIfFull d m).2.2).2.1.addAt y it.index
+            ((growIfFull d m).2.1.addAt x it.index (growIfFull d m).2.2).2.2).2.2 p3
+        unfold DequeSpec.removeAt at r3
+        rw [p2, dif_pos (by rw [hlen1]; omega)] at r3
+        simp only at r3
+        rw [List.eraseIdx_insertIdx_self] at r3
+        refine ⟨r4, by rw [r5]; exact memSame_trans q3 (memSame_trans p4 a6), Or.inr ⟨by rw [q1]; decide, r3, tr, ?_⟩⟩
+        rw [q1]
+        exact ⟨fun h => (by cases h), fun h => (by omega)⟩
+    · omega
   · have hne1 : ((growIfFull d m).1 != Stat.ok) = true := by simp [a1]
     simp only [hne1, if_true]
-    exact ⟨by rw [a2]; exact hi, a3, fun _ => ⟨by rw [a2], tr⟩⟩
+    exact ⟨by rw [a2]; exact hi, a3, Or.inr ⟨by decide, by rw [a2], tr, ⟨fun h => (by cases h), fun h => (by omega)⟩⟩⟩
 
-/-- **finding (aliased zip add)**: the hypothesis "no refusal during the second `add_at`" cannot be dropped
-from any atomicity statement — a concrete state with one free slot where the model (= the C code) reports
-`CC_OK` although the refused second insertion did not happen -/
-theorem zipAddSelf_swallows_refusal :
-    (Deque.mk 3 4 0 3 [11, 12, 13, 0] .conf).Inv ∧
-    (zipAddSelf { index := 2 } (Deque.mk 3 4 0 3 [11, 12, 13, 0] .conf) 7 8 { sched := [true], live := 2 }).1 = .ok ∧
+/-- memory safety of the aliased insertion for *every* cursor position (finding D3's range included):
+invariant and ledger are kept, and a failed call leaves the cursor where it was -/
+theorem zipAddSelf_safe (it : Iter) (d : Deque) (x y : Nat) (m : Mem) (hi : d.Inv) :
+    (zipAddSelf it d x y m).2.2.1.Inv ∧ memSame d.triple (zipAddSelf it d x y m).2.2.2 m ∧
+    ((zipAddSelf it d x y m).1 ≠ .ok → (zipAddSelf it d x y m).2.1 = it) := by
+  unfold zipAddSelf
+  by_cases hr : it.index ≥ d.size ∨ it.index ≥ d.size
+  · rw [if_pos hr]; exact ⟨hi, memSame_refl _ m, fun _ => rfl⟩
+  rw [if_neg hr]
+  dsimp only
+  have fold : ∀ (e : Deque) n, (if e.cap = e.size then e.expandCapacity n else (Stat.ok, e, n)) = growIfFull e n :=
+    fun _ _ => rfl
+  simp only [fold]
+  rcases growIfFull_spec d m hi with ⟨a1, a2, a3, a4, a5, a6⟩ | ⟨a1, a2, a3, a4⟩
+  · have hne1 : ((growIfFull d m).1 != Stat.ok) = false := by simp [a1]
+    simp only [hne1, Bool.false_eq_true, if_false]
+    have t1 := growIfFull_triple d m
+    rw [growIfFull_of_room (growIfFull d m).2.1 (growIfFull d m).2.2 a5]
+    simp only [bne_self_eq_false, Bool.false_eq_true, if_false]
+    obtain ⟨p1, p2, _, _⟩ := addAt_inv (growIfFull d m).2.1 x it.index (growIfFull d m).2.2 a2
+    have t2 := addAt_triple (growIfFull d m).2.1 x it.index (growIfFull d m).2.2
+    obtain ⟨q1, q2, _, _⟩ := addAt_inv _ y it.index ((growIfFull d m).2.1.addAt x it.index (growIfFull d m).2.2).2.2 p1
+    have t3 := addAt_triple ((growIfFull d m).2.1.addAt x it.index (growIfFull d m).2.2).2.1 y it.index
+      ((growIfFull d m).2.1.addAt x it.index (growIfFull d m).2.2).2.2
+    obtain ⟨_, _, _, r4, r5, _⟩ := removeAt_spec _ it.index
+      (((growIfFull d m).2.1.addAt x it.index (growIfFull d m).2.2).2.1.addAt y it.index
+        ((growIfFull d m).2.1.addAt x it.index (growIfFull d m).2.2).2.2).2.2 q1
+    rw [t1] at p2
+    rw [t2, t1] at q2
+    split
+    · exact ⟨p1, memSame_trans p2 a6, fun _ => rfl⟩
+    · split
+      · exact ⟨r4, by rw [r5]; exact memSame_trans q2 (memSame_trans p2 a6), fun _ => rfl⟩
+      · exact ⟨q1, memSame_trans q2 (memSame_trans p2 a6), fun h => absurd rfl h⟩
+  · have hne1 : ((growIfFull d m).1 != Stat.ok) = true := by simp [a1]
+    simp only [hne1, if_true]
+    exact ⟨by rw [a2]; exact hi, a3, fun _ => tr⟩
+
+/-- regression witness for D13: one free slot, the growth needed by the second insertion is refused — the
+call now reports `CC_ERR_ALLOC` and the content is what it was -/
+theorem zipAddSelf_refusal_is_atomic :
+    (zipAddSelf { index := 2 } (Deque.mk 3 4 0 3 [11, 12, 13, 0] .conf) 7 8 { sched := [true], live := 2 }).1 = .errAlloc ∧
     (zipAddSelf { index := 2 } (Deque.mk 3 4 0 3 [11, 12, 13, 0] .conf) 7 8 { sched := [true], live := 2 }).2.2.1.abs
-      = [11, 12, 7, 13] ∧
-    (zipAddSelf { index := 2 } (Deque.mk 3 4 0 3 [11, 12, 13, 0] .conf) 7 8 { sched := [true], live := 2 }).2.2.2.nrefused = 1 ∧
-    (DequeSpec.zipAddSelf [11, 12, 13] { pos := 2 } 7 8).2.1 = [11, 12, 8, 7, 13] := by decide
+      = [11, 12, 13] ∧
+    (zipAddSelf { index := 2 } (Deque.mk 3 4 0 3 [11, 12, 13, 0] .conf) 7 8 { live := 2 }).2.2.1.abs
+      = [11, 12, 8, 7, 13] := by decide
 
 end CC.Deque
